@@ -137,6 +137,12 @@ def ex_checker(repo):
     return {"knownDistTags": [rust_str(s) for s in re.findall(STR, m.group(1))]}
 
 
+def ex_registries(repo):
+    src = non_test(rd(repo, "src/version/registries/github.rs"))
+    m = re.search(r"const MAX_RELEASE_PAGES: usize = ([0-9_]+);", src)
+    return {"maxReleasePages": eval_int(m.group(1))}
+
+
 def norm_sql(s):
     return " ".join(s.split())
 
@@ -273,7 +279,7 @@ def ex_config_schema(repo):
             "configDefaultEnabled": d_en == "true", "configNullIsDefault": null_default}
 
 
-EXTRACTORS = [ex_detect, ex_config, ex_checker, ex_cache, ex_parsers, ex_config_schema, ex_panic_sites]
+EXTRACTORS = [ex_detect, ex_config, ex_checker, ex_registries, ex_cache, ex_parsers, ex_config_schema, ex_panic_sites]
 
 
 def render(vals):
@@ -291,6 +297,7 @@ def render(vals):
     L.append(f"def defaultRefreshIntervalMs : Int := {vals['defaultRefreshIntervalMs']}")
     L.append(f"def fetchTimeoutMs : Int := {vals['fetchTimeoutMs']}")
     L.append(f"def fetchStaggerDelayMs : Nat := {vals['fetchStaggerDelayMs']}")
+    L.append(f"def maxReleasePages : Nat := {vals['maxReleasePages']}")
     L.append(f"def knownDistTags : List String := {lean_list(vals['knownDistTags'])}")
     L.append("def migrations : List (List String) := [" + ", ".join(lean_list(g) for g in vals["migrations"]) + "]")
     L.append("def migrationColumns : List (List String) := [" + ", ".join(lean_list(g) for g in vals["migrationColumns"]) + "]")
